@@ -114,24 +114,32 @@ def run_one(spec, random_state=None):
         cls = {"CBO": CBO, "Random": RandomSearch, "RegEvo": RegularizedEvolution}[spec["search"]]
         g0 = (np.random.get_state()[1].tobytes(), np.random.get_state()[2], random.getstate())
         search = cls(problem, ev, random_state=int(spec["seed"]) if random_state is None else random_state, log_dir=os.path.join(d, "log_%d" % k), **kw)
-        if spec.get("mode", "search") == "search":
-            df = search.search(max_evals=int(spec["evals"]))
-            cols = [c for c in df.columns if c.startswith("p:")]
-            df = df.sort_values("job_id", key=lambda s: s.map(lambda j: int(str(j).split(".")[-1]))) if df["job_id"].dtype == object else df.sort_values("job_id")
-            out["table"] = [[[c[2:], repr(v), type(v).__name__] for c, v in zip(cols, row)] for row in df[cols].values.tolist()]
-        else:
-            # the same sequence of ask(n) / tell calls, n from the spec
-            if isinstance(search, CBO):
-                search._setup_optimizer() if search._opt is None else None
-            done = 0
-            for n in spec["batches"]:
-                cfgs = search.ask(n)
-                res = []
-                for cfg in cfgs:
-                    asked.append(enc(cfg))
-                    res.append((cfg, objective(cfg, nobj, fail_mod)))
-                search.tell(res)
-                done += n
+        try:
+            if spec.get("mode", "search") == "search":
+                df = search.search(max_evals=int(spec["evals"]))
+                cols = [c for c in df.columns if c.startswith("p:")]
+                df = df.sort_values("job_id", key=lambda s: s.map(lambda j: int(str(j).split(".")[-1]))) if df["job_id"].dtype == object else df.sort_values("job_id")
+                out["table"] = [[[c[2:], repr(v), type(v).__name__] for c, v in zip(cols, row)] for row in df[cols].values.tolist()]
+            else:
+                # the same sequence of ask(n) / tell calls, n from the spec
+                if isinstance(search, CBO):
+                    search._setup_optimizer() if search._opt is None else None
+                done = 0
+                for n in spec["batches"]:
+                    cfgs = search.ask(n)
+                    res = []
+                    for cfg in cfgs:
+                        asked.append(enc(cfg))
+                        res.append((cfg, objective(cfg, nobj, fail_mod)))
+                    search.tell(res)
+                    done += n
+        except Exception as e:  # the proposals made so far are still the observable; the parent compares the error class as well
+            if random_state is not None:
+                raise
+            import traceback
+
+            out["error"], out["trace"] = type(e).__name__, traceback.format_exc()[-1500:]
+            out.pop("table", None)
         g1 = (np.random.get_state()[1].tobytes(), np.random.get_state()[2], random.getstate())
         out["globals_touched"] = [g0[0] != g1[0] or g0[1] != g1[1], g0[2] != g1[2]]
     out["asked"] = asked
